@@ -220,6 +220,9 @@ func gen(out string) error {
 		fmt.Fprintf(&sb, "  (* %s.%s.UnmarshalCBOR *)\n  (%s, [%s])%s\n", t.dir, t.recv, vh.Str(t.name), strings.Join(xs, "; "), sep)
 	}
 	sb.WriteString("].\n")
+	if err := gen2(&sb); err != nil {
+		return err
+	}
 	if out == "" {
 		fmt.Print(sb.String())
 		return nil
